@@ -136,6 +136,9 @@ def gen_case(world, tier, prop):
     d = {'tags': rng.sample(TAGS, rng.randint(1, 2))}
     if rng.random() < 0.6:
       d['value'] = token()
+    via = rng.choice([None, None, 'new', 'with_tags'])
+    if via:
+      d['via'] = via      # made by Tag.new / with_tags instead of TaggedValue(...)
     return {'tv': d}
 
   def value(depth=0, allow_tv=True):
